@@ -356,12 +356,16 @@ class ShBytesIO(metaclass=_ShBytesIOMeta):
         if _isinstance(n, (SymInt, SymBool)):
             n = SymInt.lift(n)
             remaining = max(0, len(self._buf) - self._pos)
+            if n > sys.maxsize:
+                raise OverflowError("cannot fit 'int' into an index-sized integer")
             if n < 0:
                 n = -1
             elif n > remaining:
                 n = remaining + 1
             else:
                 n = concretize(n)
+        if n > sys.maxsize or n < -sys.maxsize - 1:
+            raise OverflowError("cannot fit 'int' into an index-sized integer")
         if n < 0:
             end = len(self._buf)
         else:
@@ -415,8 +419,16 @@ class ShBytesIO(metaclass=_ShBytesIOMeta):
 
     def seek(self, off, whence=0):
         self._chk()
+        if _isinstance(off, SymInt):
+            if off > sys.maxsize or off < -sys.maxsize - 1:
+                raise OverflowError("cannot fit 'int' into an index-sized integer")
+            if whence == 0 and off > len(self._buf) + 64:
+                # any position far beyond the end behaves alike: pick one representative
+                off = len(self._buf) + 65
         off = concretize(off)
         whence = concretize(whence)
+        if _isinstance(off, int) and (off > sys.maxsize or off < -sys.maxsize - 1):
+            raise OverflowError("cannot fit 'int' into an index-sized integer")
         if not _isinstance(off, int):
             raise TypeError("'%s' object cannot be interpreted as an integer" % type(off).__name__)
         if whence == 0:
@@ -616,6 +628,31 @@ class ShStructObj:
 
 
 ShStructMod.Struct = ShStructObj
+
+import binascii as _real_binascii
+
+
+class ShBinascii(types.ModuleType):
+    """binascii: only used for messages and display strings in the code under test"""
+
+    def __init__(self):
+        super().__init__("binascii")
+
+    def __getattr__(self, name):
+        return getattr(_real_binascii, name)
+
+    @staticmethod
+    def hexlify(data, *a):
+        if _isinstance(data, (SymBytes, ShByteArray)):
+            return b"<sym>"
+        return _real_binascii.hexlify(data, *a)
+
+    @staticmethod
+    def unhexlify(data):
+        if _isinstance(data, (SymBytes, ShByteArray)):
+            raise EngineGap("unhexlify of symbolic data")
+        return _real_binascii.unhexlify(data)
+
 
 _SHIM2REAL.update({ShInt: int, ShBool: bool, ShBytes: bytes, ShByteArray: bytearray})
 _REAL2SHIM = {int: ShInt, bool: ShBool, bytes: ShBytes, bytearray: ShByteArray,
